@@ -155,7 +155,7 @@ func runCheck(o *Options) int {
 		if p.isGhostKey(k) && !fc.Lemma {
 			continue
 		}
-		if !fc.Props[o.prop] {
+		if !fc.Props[o.prop] || strings.Contains(k, ".type:") {
 			continue
 		}
 		if o.funcs != "" && !strings.Contains(k, o.funcs) {
